@@ -97,6 +97,9 @@ typedef struct {
 	uint8_t stall_dst;	/* 255 none; else this thread blocks in a callback while ... */
 	uint16_t burst;		/* ... an external sender issues `burst` sends to it (queue-full) */
 	uint8_t burst_flags;
+	uint16_t late_burst;	/* after everything else was delivered: thread late_dst is stalled in a callback, tp_shutdown() is called,
+				 * then `late_burst` plain sends are issued to it (accepted: it is still running), then it is released */
+	uint8_t late_dst;
 	uint8_t nsenders;
 	c05_sender senders[C05_MAX_SENDERS];
 	tp_plans plans;
@@ -104,7 +107,8 @@ typedef struct {
 typedef struct {
 	int setup_rc;
 	int hang;		/* fence / completion ceiling hit */
-	uint32_t nsends;	/* total send ids used (senders first, then burst) */
+	uint32_t nsends;	/* total send ids used (senders first, then burst, then late burst) */
+	uint32_t nlate;		/* how many of them belong to the late burst (the last ones) */
 	uint64_t tpt_ptr[17];	/* pointer value of each pool thread object, [16] = pvt */
 	tp_res_stats res;
 } c05_out;
